@@ -1088,3 +1088,21 @@ Proof.
   - intros H; inversion H.
   - intros H; inversion H.
 Qed.
+
+(* truncation inside a frame: the payload buffer is empty, the frame buffer holds no complete frame
+   (possibly part of one) and the transport reports end of file (a read of 0 bytes) - poll_read then
+   returns Ready(Ok) with 0 bytes, i.e. a clean end of stream after the bytes of the complete frames
+   (the behaviour of the code, stated as is); nothing is decrypted, the partial frame stays *)
+Lemma c13_read_eof_mid_frame dec r n cap n1 :
+  buf_len (r_payload r) = 0 -> frame_complete (r_frame r) = Ok None ->
+  inner_read n (buf_capacity (r_frame r)) = (n1, PReady []) ->
+  exists r', poll_read dec r n cap = Ok (r', n1, PReady []) /\
+    r_got r' = r_got r /\ r_frame r' = r_frame r /\ b_data (r_payload r') = [].
+Proof.
+  intros Hp Hfc Hin. unfold poll_read, poll_read_payload. rewrite Hp. cbn [Nat.ltb Nat.leb].
+  unfold poll_read_frame. cbn [read_frame]. rewrite Hfc. cbn [bind]. rewrite Hin.
+  cbn [length Nat.eqb bind]. rewrite Hp, Nat.min_0_r. unfold buf_take. rewrite Hp.
+  cbn [Nat.leb bind firstn skipn]. eexists. split; [reflexivity|].
+  cbn [r_got r_frame r_payload b_data]. repeat split; try reflexivity.
+  unfold buf_len in Hp. destruct (b_data (r_payload r)); [reflexivity|discriminate].
+Qed.
